@@ -552,7 +552,7 @@ func (c *Client) Close() error {
 }
 
 func (c *Client) dial(ctx context.Context) (net.Conn, error) {
-	raw, err := c.dialer.DialContext(ctx, "tcp", c.addr)
+	raw, err := dialConn(ctx, &c.dialer, c.addr)
 	if err != nil {
 		return nil, err
 	}
